@@ -40,6 +40,9 @@ def run(ctx, report):
     from . import srt_doc_fold, reader_doc_fold, dfxp_reader_fold
     report.section("generated DFXP documents", dfxp_reader_fold.run, ctx, report, {
         "cues": ("R-SEGMENT", "4"), "times": ("R-DENOTES", "2")})
+    from . import sami_reader_fold
+    report.section("generated SAMI documents", sami_reader_fold.run, ctx, report, {
+        "cues": ("R-SEGMENT", "4"), "times": ("R-DENOTES", "2")})
     report.section("generated documents", reader_doc_fold.run, ctx, report, {
         "cues": ("R-SEGMENT", "4", "one caption per cue of the document, in order"),
         "times": ("R-SEGMENT", "4", "each caption carries the instants of its own timing line / frame pair")})
